@@ -1,9 +1,9 @@
-\* thorough: peers, the ticket-bearing command, wait + exec; exhaustive
+\* the pinned code (F5_waiter_kept_when_send_cancelled): execute() cancelled during command.send() keeps its waiter registered; expected to violate NoResidue
 SPECIFICATION Spec
 CONSTANTS
-  Callers = {1, 2}
-  Specs <- SpecsP
-  Msgs <- MsgsP
+  Callers = {1}
+  Specs <- SpecsC
+  Msgs <- MsgsC
   Apis = {"wait", "exec"}
   Timeouts = {"short"}
   MaxElapse = 0
@@ -12,14 +12,14 @@ CONSTANTS
   MaxCancel = 1
   MaxDue = 1
   MaxSlow = 0
-  MaxSendFail = 1
+  MaxSendFail = 0
   SendHops = 4
   SkipDoneFutures = TRUE
   GuardSetException = TRUE
   AllFieldMatchers = TRUE
   TicketBeforeRegister = TRUE
   LiveListAtCompletion = TRUE
-  ReleaseWhenSendCancelled = TRUE
+  ReleaseWhenSendCancelled = FALSE
   TimeoutForwarded = TRUE
   RegisterAfterSend = TRUE
 INVARIANT TypeOK
